@@ -172,10 +172,11 @@ def run_case(cls, params, rec):
 			err = abs(lhs - rhs)
 			rec.count("pairs_checked")
 			if not (err <= tol):
-				info = dls.ref_multipliers(plain, X[i:i + 1], used[i, j][
-					None], target)
-				if info["ambiguous"]:
+				md = dls.min_nonzero_delta(plain, X[i:i + 1], used[i, j][
+					None])
+				if md < 1e-5:
 					amb = True
+					rec.minv("min_nonzero_delta_in_of_ambiguous_pairs", md)
 					continue
 				if err / tol > worst:
 					worst, worst_ij = err / tol, (i, j, lhs, rhs)
